@@ -171,7 +171,7 @@ for i in range(0x70, 0x90):
         data = pack(data)
         result, blen = _leb128(obj, data, -1)
         sz = env.op_ptr.size
-        offset = env.cst(result, blen * 8).signextend(sz)
+        offset = env.cst(result, sz)
         obj.operands = [env.reg("reg%d" % _num, sz) + offset]
         obj.bytes += data[:blen]
         obj.type = type_data_processing
@@ -187,7 +187,7 @@ def dw_op_bregx(obj, data):
     result, blen2 = _leb128(obj, data2, -1)
     obj.bytes += data[:blen]
     data, blen = data2, blen2
-    offset = env.cst(result, blen * 8).signextend(sz)
+    offset = env.cst(result, sz)
     obj.operands = [r + offset]
     obj.bytes += data[:blen]
     obj.type = type_data_processing
